@@ -359,6 +359,7 @@ func runNearMiss(t *testing.T, run *emit.Run, r *rand.Rand) {
 			got = strconv.Itoa(wi)
 			// oracle: the validators whose proof has the winner's FIELDS hold two thirds of the snapshot
 			backing := new(big.Int)
+			members := 0
 			counted := map[int]bool{}
 			var pooled []string
 			wb, _ := w.BytesToHash()
@@ -371,12 +372,21 @@ func runNearMiss(t *testing.T, run *emit.Run, r *rand.Rand) {
 					if !counted[s.id] {
 						backing.Add(backing, shareOf(s.id))
 						counted[s.id] = true
+						for _, sid := range ids {
+							if sid == s.id {
+								members++
+							}
+						}
 					}
 					continue
 				}
 				if pb, err := p.BytesToHash(); err == nil && tagOf(p) == tagOf(w) && string(pb) == string(wb) {
 					pooled = append(pooled, describe(p))
 				}
+			}
+			if members == 0 {
+				run.Violate("C04:decision-without-snapshot-member", "evidence winner although none of the validators that submitted its fields is in the snapshot",
+					map[string]any{"kind": "split-near-miss", "origin": origin, "snapshot": coqSnapshot(ids, shares, tot), "proofs": pdesc, "submissions(validator,proof)": items, "winner": describe(w)})
 			}
 			if new(big.Int).Mul(backing, big.NewInt(3)).Cmp(new(big.Int).Mul(tot, big.NewInt(2))) < 0 {
 				id, what := "C04:winner-backers-disagree-on-fields",
@@ -455,6 +465,9 @@ func runNearMiss(t *testing.T, run *emit.Run, r *rand.Rand) {
 			if _, tot := snapshotOf(ids, shares); tot.Sign() == 0 {
 				shares[0] = big.NewInt(1)
 			}
+		}
+		if r.Intn(15) == 0 { // an empty snapshot (total 0): every submitter is an outsider
+			ids, shares = nil, nil
 		}
 		perm := r.Perm(11)
 		m := nvals + r.Intn(2)
